@@ -3,7 +3,8 @@
 Exhaustive over all codes 0..255 plus boundary 32-bit codes (factory: null exactly for unassigned codes, else the
 class File.h's include list assigns), and over every class: default construction by placement into blocks
 pre-filled with {00,ff,aa,55} (all reflected fields and the encoding identical), constructor code maps back to
-the class, written under that code and read back as the same class and code (codec level here, through File in C01)."""
+the class, written under that code and read back as the same class and code (codec level, consuming exactly the bytes
+written, and through File: every default-constructed object alone in a file at levels 0/6, containers 64 / 128 KiB)."""
 import time
 
 import driver
@@ -31,6 +32,13 @@ def main(argv):
     exe, tables = enumcheck.reflect_harness("h_codec", "plain")
     res2 = enumcheck.run_jobs([(exe, ["mode=frame", "shard=%d/8" % i]) for i in range(8)], timeout=600)
     v2, i2, ev2, di2, s2 = enumcheck.collect("C17", res2, "h_codec", "plain", accept_props={"C17"})
+    # through the file API: every default-constructed object written alone (and between two CAN messages is C01's business)
+    # into a file and read back as the same class and code
+    from checks import filecheck as F
+    fexe, _ = F.harness("sched")
+    js3, raw3 = F.run_raw(F.jobs(fexe, ["set=defaults", "readback=1"] + F.cfg([0, 6], [64, 0x20000], (0,), (0,)), 4), timeout=600)
+    v3, i3, ev3, di3, s3 = enumcheck.collect("C17", js3, "h_file", "sched", accept_props={"C17", "C01", "C06", "C10"})
+    v2, i2, ev2, di2 = v2 + v3, i2 + i3, ev2 + ev3, di2 + di3
     rule = ("evaluations = factory calls (one per code) + placement constructions (4 poison patterns per class) + objects of U whose "
             "emitted type code is fed back to the factory; distinct = codes + classes + distinct encodings")
     samples = ["createObject(0..255, 256, 0xffff, 0x10000, 0x7fffffff, 0x80000000, 0xfffffffe, 0xffffffff, ...)"] + samples[:3]
